@@ -382,9 +382,16 @@ class AirTouchSocket(Generic[comms.Hdr]):
 
     async def _read(self) -> None:
         """The main read loop for the AirTouch socket."""
+        # This task reads from the connection that exists now. Once that
+        # connection has been replaced (a subscriber may take a while, and the
+        # socket may be reset or closed and opened again in the meantime) it must
+        # neither read from nor reset the connection that took its place.
+        reader = self._reader
         try:
-            while self._reader:
-                read_result = await self._read_one_message()
+            while reader is not None and self._reader is reader:
+                read_result = await self._read_one_message(reader)
+                if self._reader is not reader:
+                    break
                 if read_result:
                     header, message = read_result
                     await self._notify_message_received(header, message)
@@ -393,30 +400,31 @@ class AirTouchSocket(Generic[comms.Hdr]):
 
         except asyncio.IncompleteReadError:
             _LOGGER.debug("Socket closed")
-            if self._writer and not self._writer.is_closing():
+            if (
+                self._reader is reader
+                and self._writer
+                and not self._writer.is_closing()
+            ):
                 _LOGGER.debug("_read(): Socket closed by other side")
                 await self.reset_connection()
         except OSError as ex:
             # Usually this indicates that the socket was closed.
             _LOGGER.debug("_read(): Socket error: %s.", ex)
-            await self.reset_connection()
+            if self._reader is reader:
+                await self.reset_connection()
         except Exception:
             _LOGGER.exception("_read(): Unexpected exception in socket handling")
-            await self.reset_connection()
+            if self._reader is reader:
+                await self.reset_connection()
 
     async def _read_one_message(
-        self,
+        self, reader: asyncio.StreamReader
     ) -> Optional[tuple[comms.Hdr, comms.Message]]:
         """Helper routine called by `_read()` to read and decode a single message.
 
         Returns the decoded header and message, or None if an error occurred
         decoding the message.
         """
-        # Need to check reader for None to satisfy mypy, but this is already
-        # checked in _read() above.
-        if not self._reader:
-            return None
-
         header_decoder = self._registry.header_decoder
         checksum_calculator = self._registry.checksum_calculator
 
@@ -426,7 +434,7 @@ class AirTouchSocket(Generic[comms.Hdr]):
         crc = None
 
         try:
-            header_buffer = await self._reader.readexactly(
+            header_buffer = await reader.readexactly(
                 header_decoder.header_length,
             )
             header_result = header_decoder.decode(header_buffer)
@@ -434,8 +442,8 @@ class AirTouchSocket(Generic[comms.Hdr]):
 
             header = header_result.header
 
-            message_buffer = await self._reader.readexactly(header.message_length)
-            crc = await self._reader.readexactly(checksum_calculator.checksum_length)
+            message_buffer = await reader.readexactly(header.message_length)
+            crc = await reader.readexactly(checksum_calculator.checksum_length)
 
             if _LOGGER.isEnabledFor(logging.DEBUG):
                 all_bytes = header_buffer + message_buffer + crc
